@@ -355,13 +355,11 @@ func ruleC15R4(c *Ctx) {
 	// loops started with `go` directly in OpenWriter (the analysis workers are started through config.GoFunc)
 	fNotify := c.Field(pkgIndex, "segmentMerge", "notifyCh")
 	isCloseCh := func(v ssa.Value) bool {
-		if dependsOnField(v, a.WCloseCh) {
+		if loadsField(v, a.WCloseCh) {
 			return true
 		}
-		return dependsOn(v, func(y ssa.Value) bool {
-			p, ok := y.(*ssa.Parameter)
-			return ok && strings.Contains(strings.ToLower(p.Name()), "close")
-		})
+		p, ok := v.(*ssa.Parameter)
+		return ok && strings.Contains(strings.ToLower(p.Name()), "close")
 	}
 	reach := c.Light().Reach(roots...)
 	n := 0
@@ -385,6 +383,35 @@ func ruleC15R4(c *Ctx) {
 					}
 				}
 				c.Check(has, key, c.Pos(in.Pos()), "has a <-closeCh case", "a blocking select in a background loop has no close-channel case: Close() can wait forever")
+				// the close case must leave the loop: once closeCh is closed the same select would fire again at once
+				if has {
+					idx := resultValue2(x, 0)
+					for k, st := range x.States {
+						if st.Dir != types.RecvOnly || !isCloseCh(st.Chan) || idx == nil || idx.Referrers() == nil {
+							continue
+						}
+						for _, r := range *idx.Referrers() {
+							b, ok := r.(*ssa.BinOp)
+							if !ok || b.Op != token.EQL {
+								continue
+							}
+							if kk, okc := constInt(b.Y); !okc || int(kk) != k || b.Referrers() == nil {
+								continue
+							}
+							for _, rr := range *b.Referrers() {
+								iff, ok := rr.(*ssa.If)
+								if !ok {
+									continue
+								}
+								n++
+								key2 := fmt.Sprintf("close case of select #%d leaves its loop in %s", n, FuncName(fn))
+								spins := blockReachable(iff.Block().Succs[0], x.Block())
+								c.Check(!spins, key2, c.Pos(in.Pos()), "after the close channel fired the select is not reached again",
+									"after <-closeCh fired, control can come back to the same select (e.g. a bare `break` that only leaves the select): the loop spins on the closed channel and Close() never returns")
+							}
+						}
+					}
+				}
 			case *ssa.Send:
 				n++
 				key := fmt.Sprintf("send #%d in %s", n, FuncName(fn))
